@@ -169,6 +169,8 @@ class Fn:
                 return "asarray"
             if cn in ("list", "map", "sorted"):
                 return "listOf"
+            if isinstance(expr.func, ast.Name) and expr.func.id in self.params:
+                return "raw"          # the output of a user-supplied callable (predictor / estimator) may carry labels
             if cn in FRESH_FUNCS:
                 cls = {self.classify(a, at, seen) for a in expr.args}
                 return "fresh" if cls <= {"fresh", "none"} else "raw"
@@ -326,6 +328,19 @@ def sinks_super_load_data(F):
     return out
 
 
+def sinks_predictor_output(F):
+    """`gamma(self, predictor)`: every statement that stores what `predictor(self.X)` returned"""
+    cb = F.params[0]
+    out = []
+    for node in ast.walk(F.fn):
+        if isinstance(node, ast.Assign) and any(isinstance(n, ast.Call) and isinstance(n.func, ast.Name) and n.func.id == cb
+                                                for n in ast.walk(node.value)):
+            out.append((node, node.value, f"{ast.unparse(node.targets[0])} = ..{cb}(self.X).."))
+    if not out:
+        raise U(f"{F.where}: no statement stores the output of `{cb}(..)`")
+    return out
+
+
 def sinks_appended(F):
     """AnnotatedMetricFunction.__call__: what is handed to the metric function"""
     out = []
@@ -362,6 +377,9 @@ SITES = [
     ("ErrorRateParity.load_data", UP, "ErrorRateParity.load_data", sinks_super_load_data),
     ("ErrorRate.load_data", ER, "ErrorRate.load_data", sinks_super_load_data),
     ("BoundedGroupLoss.load_data", BGL, "ConditionalLossMoment.load_data", sinks_super_load_data),
+    ("UtilityParity.gamma", UP, "UtilityParity.gamma", sinks_predictor_output),
+    ("ErrorRate.gamma", ER, "ErrorRate.gamma", sinks_predictor_output),
+    ("BoundedGroupLoss.gamma", BGL, "ConditionalLossMoment.gamma", sinks_predictor_output),
 ]
 
 
